@@ -1,6 +1,11 @@
 """Thorough tier, part 1: bounded-exhaustive sweeps over enumerated program skeletons (sa/gen.py), in parallel."""
 import concurrent.futures
 import os
+import multiprocessing
+
+# fresh interpreters for the workers: forking the parent (which holds the evaluated repository) makes every worker copy the
+# parent's heap page by page as reference counts change
+_SPAWN = multiprocessing.get_context("spawn")
 
 from .report import AnalysisError
 
@@ -49,7 +54,7 @@ def sweep_cfg(ctx, rep, rule="T-CFG(sweep)", kmain=3, ksub=2, subs_only=False):
                    "(fall-through, b, bz, bnz, callsub, retsub, return, err; every jump target): parse_teal equals the reference construction "
                    "(blocks, ordered successors, predecessors, well-formedness, subroutines, callers, return points)")
     nshards = JOBS
-    with concurrent.futures.ProcessPoolExecutor(max_workers=JOBS) as ex:
+    with concurrent.futures.ProcessPoolExecutor(max_workers=JOBS, mp_context=_SPAWN) as ex:
         results = list(ex.map(_cfg_worker, [(str(ctx.root), s, nshards, kmain, ksub) for s in range(nshards)]))
     total = sum(n for n, _ in results)
     bad = [x for _, o in results for x in o]
@@ -196,7 +201,7 @@ def sweep_fixpoint(ctx, rep, rule="T-FIXPOINT", cfg=None, only=None):
                    "(exact; blocks of subroutines with several call sites: sound only); the rekey-to verdict is 'some path' iff some accepting "
                    "path admits an arbitrary address")
     nshards = JOBS
-    with concurrent.futures.ProcessPoolExecutor(max_workers=JOBS) as ex:
+    with concurrent.futures.ProcessPoolExecutor(max_workers=JOBS, mp_context=_SPAWN) as ex:
         results = list(ex.map(_fix_worker, [(str(ctx.root), s, nshards, cfg) for s in range(nshards)]))
     total = sum(n for n, _ in results)
     bad = [x for _, o in results for x in o]
@@ -270,7 +275,7 @@ def full_tool(ctx, rep, rule="T-COMPLETE(full)"):
                    "JSON output, every printer - evaluated abstractly (nothing abstracted away) on the program shape classes: completes "
                    "without an exception of the analysed code")
     items = list(programs().items())
-    with concurrent.futures.ProcessPoolExecutor(max_workers=JOBS) as ex:
+    with concurrent.futures.ProcessPoolExecutor(max_workers=JOBS, mp_context=_SPAWN) as ex:
         results = list(ex.map(_full_worker, [(str(ctx.root), n, s) for n, s in items]))
     for name, out in results:
         for _, what, obs in out:
@@ -394,7 +399,7 @@ def sweep_gtxn(ctx, rep, rule="T-FIXPOINT(gtxn)", cfg=None, minimum=50):
                    "information recorded for Gtxn[i], Gtxn[GroupIndex+k] and 'this transaction at index i' admits an arbitrary address "
                    "whenever some accepting path through the block does")
     nshards = JOBS
-    with concurrent.futures.ProcessPoolExecutor(max_workers=JOBS) as ex:
+    with concurrent.futures.ProcessPoolExecutor(max_workers=JOBS, mp_context=_SPAWN) as ex:
         results = list(ex.map(_gtxn_worker, [(str(ctx.root), s, nshards, cfg) for s in range(nshards)]))
     total = sum(n for n, _ in results)
     bad = [x for _, o in results for x in o]
@@ -467,7 +472,7 @@ def _regex_worker(args):
 def sweep_regex(ctx, rep, rule="T-REGEX(sweep)", kmain=3, ksub=2):
     rep.rule(rule, f"match_regex on every control skeleton with <= {kmain} main and <= {ksub} subroutine blocks x 4 patterns x 3 labels against "
                    "the two-pass reference: matches and covered sets")
-    with concurrent.futures.ProcessPoolExecutor(max_workers=JOBS) as ex:
+    with concurrent.futures.ProcessPoolExecutor(max_workers=JOBS, mp_context=_SPAWN) as ex:
         results = list(ex.map(_regex_worker, [(str(ctx.root), s, JOBS, kmain, ksub) for s in range(JOBS)]))
     total = sum(n for n, _ in results)
     bad = [x for _, o in results for x in o]
@@ -584,7 +589,7 @@ def sweep_meta(ctx, rep, rule="T-META(sweep)", cfg=None, minimum=50):
                    "GroupSize / GroupIndex / RekeyTo / Fee contexts and the rekey-to paths of the rewritten program, block by block, equal "
                    "those of the original (abstract evaluation of parse_teal, construct_function and the three analyses)")
     nshards = JOBS
-    with concurrent.futures.ProcessPoolExecutor(max_workers=JOBS) as ex:
+    with concurrent.futures.ProcessPoolExecutor(max_workers=JOBS, mp_context=_SPAWN) as ex:
         results = list(ex.map(_meta_worker, [(str(ctx.root), s, nshards, cfg) for s in range(nshards)]))
     total = sum(n for n, _ in results)
     bad = [x for _, o in results for x in o]
@@ -718,7 +723,7 @@ def sweep_search(ctx, rep, rule="T-SEARCH(sweep)", kmain=3, ksub=2):
                    "matching, cut at validated blocks, per-activation loop cut, recursion cut, end at a block where execution can terminate); "
                    "compared as multisets, so every path is reported once")
     nshards = JOBS
-    with concurrent.futures.ProcessPoolExecutor(max_workers=JOBS) as ex:
+    with concurrent.futures.ProcessPoolExecutor(max_workers=JOBS, mp_context=_SPAWN) as ex:
         results = list(ex.map(_search_worker, [(str(ctx.root), s, nshards, kmain, ksub) for s in range(nshards)]))
     total = sum(n for n, _ in results)
     bad = [x for _, o in results for x in o]
